@@ -119,8 +119,10 @@ func (db *DB) delete(ctx context.Context, tr telem.TimeRange) error {
 //     case, we would use the lower distance approximation instead. For example:
 //     if the index is 11 13 15 17 19, but the domain starts at 9 * Second + 1,
 //     the start of the domain is inexact. With a target of 17, we would use the
-//     lower offset 3 as the delete offset, and use the lower timestamp approximation
-//     of 15 * Second + 1.
+//     lower offset 3 as the delete offset, and use the upper timestamp approximation
+//     of the previous offset (the last sample that is kept), i.e. 15 * Second + 1.
+//     If the target is the first sample of the domain, nothing is kept and the
+//     timestamp is not snapped.
 //
 //   - Case 4: Start of domain is inexact, target is inexact
 //     Again use the example of 11 13 15 17 19 with the domain starting at
@@ -180,6 +182,15 @@ func (db *DB) calculateStartOffset(
 			// If start is inexact, we must use the lower approximation. (Note that the
 			// start is only inexact because of domain cutoff).
 			sampleOffset = approxDist.Lower
+			// The target is the first sample of the domain: nothing before it is kept,
+			// so there is no previous sample to snap to.
+			if sampleOffset == 0 {
+				byteOff, err := db.resolveByteOffset(ctx, domainStart, sampleOffset)
+				if err != nil {
+					return 0, 0, err
+				}
+				return byteOff, ts, nil
+			}
 			approxStamp, err = db.index().Stamp(
 				ctx,
 				domainStart,
@@ -189,7 +200,9 @@ func (db *DB) calculateStartOffset(
 			if err != nil {
 				return 0, 0, err
 			}
-			ts = approxStamp.Lower + 1
+			// The start is inexact, so the stamp is resolved as if the domain started at
+			// its first sample: the upper bound is the last sample that is kept.
+			ts = approxStamp.Upper + 1
 		} else {
 			approxStamp, err = db.index().Stamp(
 				ctx,
@@ -251,7 +264,9 @@ func (db *DB) calculateEndOffset(
 			); err != nil {
 				return 0, 0, err
 			}
-			ts = approxStamp.Lower
+			// The upper bound is the first sample at or after the target, i.e. the first
+			// sample that is kept.
+			ts = approxStamp.Upper
 		} else if !approxDist.StartExact {
 			// If start is inexact, we must use the lower approximation. (Note that the
 			// start is only inexact because of domain cutoff).
